@@ -54,8 +54,8 @@ class C12(CheckBase):
         from simlib import kitchen
         ks = kitchen.kitchen_sink()
         self.schemas.append((ks["name"], pm.emit_express(ks)))
-        with open(os.path.join(os.path.dirname(os.path.dirname(os.path.abspath(__file__))), "simlib", "data", "algo_sink.exp")) as f:
-            self.schemas.append(("algo_sink", f.read()))      # two schemas, functions/procedures/rules, renamed USE/REFERENCE
+        with open(os.path.join(os.path.dirname(os.path.dirname(os.path.abspath(__file__))), "simlib", "data", "algo_sink.exp"), "rb") as f:
+            self.schemas.append(("algo_sink", f.read().decode("latin-1")))      # two schemas, functions/procedures/rules, renamed USE/REFERENCE
         for sd in pw.schema_defs(seed, tier, 2 if tier == "quick" else 10, label="c12", imported=False)[1:]:
             self.schemas.append((sd["name"], pm.emit_express(sd)))
         from simlib import exprgen
